@@ -188,6 +188,13 @@ pub fn names_of(ast: &MapAst) -> Names {
     for v in [U32M - 2, U32M - 1, U32M, U32M + 1, u64::MAX as u128] {
         lines.push(v);
     }
+    // lines beyond 2^32 whose low 32 bits are small (i.e. would fall into a range after truncation)
+    let small: Vec<u128> = lines.iter().copied().filter(|v| *v <= 70).step_by(3).collect();
+    for v in small {
+        lines.push((1u128 << 32) + v);
+    }
+    lines.push((1u128 << 33) + 5);
+    lines.push((1u128 << 40) + 12);
     lines.sort();
     lines.dedup();
     n.lines = lines.into_iter().filter(|v| *v <= u64::MAX as u128).map(|v| v as u64).collect();
@@ -398,8 +405,14 @@ impl<'a> TextGen<'a> {
             0 => v.push(self.frame_line(rng)),
             1 => {
                 // opaque first line: must contain a space before any ": "
-                let t = *rng.pick(&["    ... 3 more", "not a throwable: because spaces", "two words", "   ", ""]);
-                v.push(TextLine { text: t.to_string(), kind: LineKind::Opaque });
+                if rng.chance(1, 2) {
+                    // a log excerpt cut off at the cause section: a cause is only remapped on a later line
+                    let t = self.tg.throwable(rng);
+                    v.push(TextLine { text: format!("Caused by: {}", t.print()), kind: LineKind::Opaque });
+                } else {
+                    let t = *rng.pick(&["    ... 3 more", "not a throwable: because spaces", "two words", "   ", ""]);
+                    v.push(TextLine { text: t.to_string(), kind: LineKind::Opaque });
+                }
             }
             _ => {
                 let t = self.tg.throwable(rng);
